@@ -337,6 +337,11 @@ impl ReceiveChannelReliable {
             .entry(slice.message_id)
             .or_insert_with(|| SliceConstructor::new(slice.message_id, slice.num_slices));
 
+        if slice_constructor.num_slices != slice.num_slices {
+            // All slices of a message must agree on the slice count the memory was reserved for
+            return Err(ChannelError::InvalidSliceMessage);
+        }
+
         if let Some(message) = slice_constructor.process_slice(slice.slice_index, &slice.payload)? {
             // Memory usage is re-added with the exactly message size
             self.memory_usage_bytes -= slice.num_slices * SLICE_SIZE;
